@@ -177,7 +177,8 @@ inline void random_geom_params(Rng& rng, ProblemSpec& s, bool defaults = false)
 {
     if (s.geom == G_SHAFRANOV) {
         s.p1 = defaults ? 0.3 : rng.uniform(0.0, 0.5);  // elongation kappa
-        s.p2 = defaults ? 0.2 : rng.uniform(0.0, 0.3);  // Shafranov shift delta
+        // the mapping is singular inside the domain when 2*delta >= 1 - kappa: stay clearly on the regular side
+        s.p2 = defaults ? 0.2 : rng.uniform(0.0, std::min(0.3, 0.4 * (1.0 - s.p1)));  // Shafranov shift delta
     }
     else if (s.geom == G_CZARNY) {
         s.p1 = defaults ? 0.3 : rng.uniform(0.1, 0.5);  // inverse aspect ratio epsilon
